@@ -43,7 +43,7 @@ def hostile(spec: dict, rng) -> list[str]:  # noqa: ANN001
     feats = []
     x = lambda: rng.choice(variables)  # noqa: E731
     k = lambda: rng.choice(params)  # noqa: E731
-    for kind in rng.sample(["shared", "permuted", "same_name", "dup_args", "sqrt", "prefix_collision", "ia_variable", "same_name_coef"], rng.randint(1, 3)):
+    for kind in rng.sample(["shared", "permuted", "same_name", "dup_args", "sqrt", "prefix_collision", "ia_variable", "same_name_coef", "mirror_same_name", "same_name_other_arity"], rng.randint(1, 3)):
         if kind == "shared":
             comps.append({"kind": "derived", "name": "hs1", "fn": L(tr.t_div), "args": [x(), k()]})
             comps.append({"kind": "derived", "name": "hs2", "fn": L(tr.t_div), "args": [k(), x()]})
@@ -60,6 +60,16 @@ def hostile(spec: dict, rng) -> list[str]:  # noqa: ANN001
             comps.append({"kind": "reaction", "name": "hn2", "fn": L(tb.t_ma1), "args": [k(), s], "stoich": {s: 1.0}})
             comps.append({"kind": "derived", "name": "hnd", "fn": L(tb.t_add), "args": [s, k()]})
             comps.append({"kind": "derived", "name": "hnd2", "fn": L(tr.t_add), "args": [s, k()]})
+        elif kind == "mirror_same_name" and len(variables) >= 2:
+            a, b = rng.sample(variables, 2)
+            comps.append({"kind": "derived", "name": "hm1", "fn": L(tr.t_net), "args": [a, b]})
+            comps.append({"kind": "derived", "name": "hm2", "fn": L(tb.t_net), "args": [b, a]})
+            comps.append({"kind": "reaction", "name": "hmv", "fn": L(tr.t_net), "args": [a, b], "stoich": {a: -1.0}})
+            comps.append({"kind": "reaction", "name": "hmw", "fn": L(tb.t_net), "args": [b, a], "stoich": {b: 1.0}})
+        elif kind == "same_name_other_arity":
+            a = x()
+            comps.append({"kind": "derived", "name": "hu1", "fn": L(tr.t_un), "args": [a, k()]})
+            comps.append({"kind": "derived", "name": "hu2", "fn": L(tb.t_un), "args": [a]})
         elif kind == "dup_args":
             s = x()
             comps.append({"kind": "derived", "name": "hd1", "fn": L(tr.t_mul), "args": [s, s]})
